@@ -304,6 +304,10 @@ func (fr *Frame) unop(x *ssa.UnOp) {
 		r := fr.defineVal(x, lv.T)
 		vc.S.Assert(vc.rangeFact(r.T, x.Type(), 0))
 		fr.loadedRefFact(r, x.Type())
+		if strings.HasPrefix(p.Heap, "G|") && len(p.Path) == 0 && vc.P.NonNilGlobals()[p.Heap] {
+			// sentinel errors: initialised once with errors.New, never reassigned
+			vc.S.Assert(not(eq("(if-tag "+r.T+")", "0")))
+		}
 		fr.set(x, r)
 	case token.NOT:
 		fr.set(x, &Val{T: not(vc.term(v)), Typ: x.Type()})
@@ -835,18 +839,31 @@ func (fr *Frame) makeSlice(x *ssa.MakeSlice) {
 	l := vc.term(fr.val(x.Len))
 	c := vc.term(fr.val(x.Cap))
 	fr.safety("alloc", x, and(cmp("<=", "0", l), cmp("<=", l, c)))
-	if fr.c != nil {
-		if lim, ok := fr.c.allocLimit(); ok {
-			fr.safetyNoAssume("alloc-size", x, cmp("<=", c, lim))
-		}
+	if fr.c != nil && fr.c.AllocLimit != nil {
+		// "memory in proportion to the input": every allocation is bounded by the declared limit
+		env := fr.specEnvHere()
+		lim := vc.term(env.eval(fr.c.AllocLimit.E))
+		fr.safetyAlways("alloc-size", x, cmp("<=", c, lim), "allocation bounded by "+fr.c.AllocLimit.Src)
 	}
 	r := fr.alloc(types.NewArray(elem, 0), "make")
 	fr.set(x, &Val{Typ: x.Type(), Sl: &SliceParts{r.T, "0", l, c}})
 }
 
-func (c *Contract) allocLimit() (Term, bool) { return "", false }
-
-func (fr *Frame) safetyNoAssume(kind string, in ssa.Instruction, cond Term) {}
+// safetyAlways emits an obligation regardless of the check classes selected.
+func (fr *Frame) safetyAlways(kind string, in ssa.Instruction, cond Term, desc string) {
+	vc := fr.vc
+	key := kind + "@" + FuncName(fr.fn)
+	n := vc.callCount[key]
+	vc.callCount[key] = n + 1
+	pos := vc.P.SSA.Fset.Position(in.Pos())
+	anchor := fmt.Sprintf("#%d", n)
+	if fr.inlined {
+		anchor = FuncName(fr.fn) + anchor
+	}
+	vc.addObl(&Obligation{Kind: kind, Anchor: anchor, Props: fr.c.Props, Desc: fmt.Sprintf("%s at %s:%d", desc, shortFile(pos.Filename), pos.Line), File: pos.Filename, Line: pos.Line,
+		Goals: []Goal{{fr.here(), cond}}, Mark: vc.S.Mark()})
+	fr.assume(cond)
+}
 
 // ---------- maps ----------
 
